@@ -275,15 +275,22 @@ def execute_case(spec: dict, *, chooser: Optional[Chooser] = None, gated: bool =
                     obs.returned_key_ids_ok = all(any(k is t for t in built.requested) for k in keys)
         finally:
             sink.close()
+        runner = ctl.runner
+        if obs.outcome == 'raise' and backend_kind in ('fork', 'spawn') and not obs.timeout:
+            # "once run_tasks has raised no further task is started": the executor may have started the next queued task in the very
+            # wait() call that also delivered the failure (i.e. just BEFORE the raise; its run() record then shows up a little
+            # later), so run() records after the raise prove nothing. What must not happen is that work still QUEUED at the raise
+            # gets dequeued afterwards. The queue is the executor's (internal) pending map; if it is not there the clause is skipped.
+            ex_ = getattr(getattr(runner, 'real', None), 'executor', None)
+            pend = getattr(ex_, '_pending_future_to_thunk', None)
+            if isinstance(pend, dict):
+                before = set(id(f) for f in pend)
+                time.sleep(0.4 if backend_kind == 'fork' else 1.0)      # pass-only grace window
+                after = set(id(f) for f in getattr(ex_, '_pending_future_to_thunk', {}))
+                obs.started_after_raise = [f'{len(before - after)} queued submission(s) left the queue after run_tasks raised'] if before - after else []
         if second is not None and not obs.timeout and not gated:
             _second_run(obs, spec, second, lab, built, ctl, backend_kind, storage, storage_null, base_ctx, obs_dir, d, displays, deadline_s)
         runner = ctl.runner
-        if obs.outcome == 'raise' and backend_kind in ('fork', 'spawn') and not obs.timeout:
-            # pass-only grace window: nothing may start once run_tasks has raised
-            before = [r[1] for r in vu.read_trace(obs_dir) if r[0] == 'S']
-            time.sleep(0.4 if backend_kind == 'fork' else 1.0)
-            after = [r[1] for r in vu.read_trace(obs_dir) if r[0] == 'S']
-            obs.started_after_raise = after[len(before):]
         if gated:
             # let every worker still parked at a gate run to completion, and reap what a failed run left behind
             for n in spec['nodes']:
